@@ -1041,6 +1041,18 @@ def clause_plateau_scan(ctx):
     lp = loops[0]
     ok_iter = isinstance(lp.iter, ast.Call) and call_name(lp.iter) == \
         "enumerate" and _is_grid(R, lp.iter.args[0])
+    if not ok_iter:
+        # the loop runs over an object that is handed the grid (an iterator
+        # of the package's own making): what it does per item is not seen
+        src_ = lp.iter.args[0] if isinstance(lp.iter, ast.Call) and \
+            lp.iter.args else lp.iter
+        v_ = R.resolve(src_)
+        if isinstance(v_, ast.Call) and isinstance(v_.func, ast.Name) and \
+                v_.func.id.lstrip("_")[:1].isupper() and any(
+                    _is_grid(R, a_) for a_ in v_.args):
+            raise Undecided("compute_emodulus_vs_mindelta: the scan runs "
+                            f"through the iterator `{v_.func.id}`, whose "
+                            "passes are not understood")
     ctx.check(ok_iter, lp, "loop enumerates the whole depth grid",
               "the scan loop does not enumerate the depth grid as it comes "
               "from np.linspace (a filtered or sliced grid no longer has "
